@@ -70,6 +70,8 @@ def scenarios():
         "norm_fro": lambda: torch.linalg.norm(A()), "vector_norm_inf": lambda: torch.linalg.vector_norm(A() - 2.0, torch.inf), "matrix_norm_inf": lambda: torch.linalg.matrix_norm(T([[1.0, -2.0], [3.0, 4.0]]), torch.inf),
         "dist_inf": lambda: torch.dist(T([[1.0, 2.0]]), T([[0.0, 5.0]]), p=torch.inf), "foreach_norm": lambda: torch._foreach_norm([T([3.0, 4.0])])[0],
         "add_alpha": lambda: T([1.0]).add(T([2.0]), alpha=0.5), "mul_add_": lambda: T([[1.0, 2.0]]).mul(-0.5).add_(torch.eye(1, 2), alpha=1.5),
+        "norm_dim0_keepdim": lambda: A().norm(dim=0, keepdim=True), "norm_dim1": lambda: A().norm(dim=1), "div_by_col_norms": lambda: A().div_(A().norm(dim=0, keepdim=True)),
+        "vector_norm_dim": lambda: torch.linalg.vector_norm(A(), 2, dim=-1, keepdim=True),
         "sub_norm_div_": lambda: T([[1.0, 2.0]]).sub(T([[0.0, 1.0]])).norm().div_(T([[3.0, 4.0]]).norm()),
         "any_false": lambda: torch.tensor(float(bool(T([[0.0, 0.0]]).any()))), "any_true": lambda: torch.tensor(float(bool(T([[0.0, 1.0]]).any()))),
         "isnan_any": lambda: torch.tensor(float(bool(torch.isnan(T([1.0])).any()))), "count_nonzero": lambda: torch.count_nonzero(T([0.0, 2.0, 3.0])),
